@@ -192,7 +192,8 @@ type spelling struct {
 }
 
 func randSpelling(rng *rand.Rand) spelling {
-	units := [][]string{{"TAB"}, {"SP"}, {"SP", "SP"}, {"SP", "SP", "SP"}, {"SP", "SP", "SP", "SP"}, {"TAB", "TAB"}}
+	units := [][]string{{"TAB"}, {"SP"}, {"SP", "SP"}, {"SP", "SP", "SP"}, {"SP", "SP", "SP", "SP"}, {"TAB", "TAB"},
+		{"SP", "SP", "SP", "SP", "SP", "SP", "SP", "SP"}}
 	return spelling{unit: units[rng.Intn(len(units))], heading: rng.Intn(5) == 0, crlf: rng.Intn(4) == 0, blankP: []int{0, 0, 10, 30}[rng.Intn(4)]}
 }
 
